@@ -35,7 +35,9 @@ REQUIRED = {'names/confusable': 300, 'names/array-position': 100, 'names/exponen
 # names
 
 VARS = ['x', 'xx', 'x1', 'x_1', "x'", "x''", 'x_1_2', 'sin', 'f', 'm', 'k', 'T_{1}', 'T_{1}^{2}', 'T^{2}', 'T',
-        'T_{-1}', 'e1', 'pi2', 'a_b', 'ab', 'a', 'b', "f'", 'sinh', 'M']
+        'T_{-1}', 'e1', 'pi2', 'a_b', 'ab', 'a', 'b', "f'", 'sinh', 'M',
+        # names that other number parsers (Python's float()) read as literals: to the grammar they are plain names
+        'inf', 'nan', 'infinity', 'NaN', 'Inf', 'Infinity', 'INF', 'infty', 'E', 'e']
 FUNCS = ['sin', 'f', "f'", 'x', 'sinh', 'sin2', 'T_{1}', 'm', 'fx', 'g_1', "g''", 'a']
 SUFFIXES = ['k', 'm', 'M', '%', 'x', 'T']
 
@@ -55,6 +57,7 @@ FAMILIES = [
     (['sin', 'sinh', 'pi2', 'e1'], ['sin', 'sinh', 'sin2']),
     (['a', 'ab', 'a_b', 'b'], ['a', 'g_1', "g''"]),
     (['f', "f'", 'm', 'k', 'M'], ['f', "f'", 'm']),
+    (['inf', 'nan', 'infinity', 'NaN', 'Inf', 'Infinity', 'INF', 'infty', 'E', 'e'], ['inf', 'nan', 'f']),
 ]
 
 
